@@ -11,6 +11,8 @@ const int MAXT = 4, NSLOT = 3, NPAY = 2;
 int g_dtor[4096]; int g_objs = 0;
 struct Obj : public RefCount::Object { int id; std::string tag; Obj(int id, const std::string& t) : id(id), tag(t) {} ~Obj() { ++g_dtor[id]; } };
 typedef RefCount::Ptr<Obj> ObjPtr;
+struct DObj : public Obj { int extra; DObj(int id, const std::string& t) : Obj(id, t), extra(id) {} };   // derived pointee: handles of RefCount::Ptr<DObj> convert to RefCount::Ptr<Obj>
+typedef RefCount::Ptr<DObj> DObjPtr;
 
 // one handle type per kind, behind a tiny interface
 struct Kind {
@@ -82,6 +84,14 @@ struct KPtr : Kind {
   bool swap(void* a, void* b) override { ((ObjPtr*)a)->swap(*(ObjPtr*)b); return true; }
   int objectId(void* h) override { ObjPtr& p = *(ObjPtr*)h; return p ? p->id : -1; }
 };
+// RefCount::Ptr<Obj> handles to objects of a derived class; every copy and assignment goes through a transient handle of the derived
+// type, i.e. through the converting constructor / converting assignment of Ptr
+struct KPtrConv : KPtr {
+  void* make(int p) override { int id = g_objs++; DObjPtr d(new DObj(id, payloadText(p))); return new ObjPtr(d); }
+  void* copy(void* s) override { DObjPtr d(static_cast<DObj*>(((ObjPtr*)s)->operator->())); return new ObjPtr(d); }
+  void assign(void* dst, void* s) override { DObjPtr d(static_cast<DObj*>(((ObjPtr*)s)->operator->())); *(ObjPtr*)dst = d; }
+  void modify(void* h, int tid, int n, std::string& m) override { int id; { LedgerPause lp; id = g_objs++; } m = "own" + std::to_string(tid) + "." + std::to_string(n); DObjPtr d(new DObj(id, m)); *(ObjPtr*)h = d; }
+};
 struct KXml : Kind {
   static std::string show(const Xml::Variant& v) { if (v.isText()) { String s = v.toString(); return "T:" + std::string((const char*)s, s.length()); } if (v.isElement()) { const Xml::Element& e = v.toElement(); return "E:" + std::string((const char*)e.type, e.type.length()) + "/" + std::to_string(e.attributes.size()); } return "null"; }
   void* make(int p) override { if (p == 0) { Xml::Element e; e.line = e.column = 0; e.type = String("elem"); e.attributes.append(String("k"), String("v")); e.content.append(Xml::Variant(String("child"))); return new Xml::Variant(e); } return new Xml::Variant(String("text")); }
@@ -105,6 +115,8 @@ struct KXml : Kind {
   }
 };
 
-Kind* kindOf(int k) { static KString a; static KVarString b; static KVarList c; static KPtr d; static KXml e; switch (k) { case 0: return &a; case 1: return &b; case 2: return &c; case 3: return &d; default: return &e; } }
+Kind* kindOf(int k) { static KString a; static KVarString b; static KVarList c; static KPtr d; static KXml e; static KPtrConv f; switch (k) { case 0: return &a; case 1: return &b; case 2: return &c; case 3: return &d; case 5: return &f; default: return &e; } }
+const int NKIND = 6;
+inline bool isPtrKind(int k) { return k == 3 || k == 5; }
 
 }  // namespace c09
